@@ -248,4 +248,106 @@ theorem tileWalk_parts (ts : List TilePart) : ∀ (fuel : Nat), (∀ t ∈ ts, t
     rw [hd]
     exact ih f (fun x hx => hfit x (by simp [hx])) (by simp at hf; omega)
 
+/-! ## TPsot / TNsot consistency (A.4.2), general -/
+
+section
+open StrictJ2k
+/-- blocks of tile-part headers, block `i` carrying tile index `i` only: filtering by tile index returns the block -/
+theorem filter_blocks (G : Nat → List Sot) (hG : ∀ i, ∀ s ∈ G i, s.isot = i) (t : Nat) : ∀ n : Nat,
+    ((List.range n).flatMap G).filter (fun s => decide (s.isot = t)) = if t < n then G t else [] := by
+  intro n
+  induction n with
+  | zero => simp
+  | succ k ih =>
+    rw [List.range_succ, List.flatMap_append, List.filter_append, ih]
+    simp only [List.flatMap_cons, List.flatMap_nil, List.append_nil]
+    by_cases h1 : t < k
+    · have : (G k).filter (fun s => decide (s.isot = t)) = [] := by
+        rw [List.filter_eq_nil_iff]; intro a ha; have := hG k a ha; simp; omega
+      simp [h1, this, show t < k + 1 by omega]
+    · by_cases h2 : t = k
+      · subst h2
+        have : (G t).filter (fun s => decide (s.isot = t)) = G t := by
+          rw [List.filter_eq_self]; intro a ha; simp [hG t a ha]
+        simp [this]
+      · have : (G k).filter (fun s => decide (s.isot = t)) = [] := by
+          rw [List.filter_eq_nil_iff]; intro a ha; have := hG k a ha; simp; omega
+        simp [h1, this, show ¬ t < k + 1 by omega]
+
+/-- GENERAL TPsot/TNsot CONSISTENCY: any stream whose tile-part headers come in blocks, block `i` non-empty, all with
+    Isot = i, numbered TPsot = 0,1,2,… and all declaring TNsot = the block's length, passes the A.4.2 check — for
+    any number of tiles and any block lengths -/
+theorem partsConsistent_blocks (n : Nat) (G : Nat → List Sot) (hG : ∀ i, ∀ s ∈ G i, s.isot = i)
+    (hne : ∀ i, i < n → G i ≠ [])
+    (hnum : ∀ i, i < n → ∀ (k : Nat) (s : Sot), (G i)[k]? = some s → s.tpsot = k ∧ s.tnsot = (G i).length) :
+    partsConsistent n ((List.range n).flatMap G) = true := by
+  unfold partsConsistent
+  rw [List.all_eq_true]
+  intro t ht
+  have htn : t < n := by simpa using ht
+  simp only [filter_blocks G hG t n, htn, if_true]
+  simp only [Bool.and_eq_true, Bool.not_eq_true', List.all_eq_true, decide_eq_true_eq]
+  refine ⟨⟨?_, ?_⟩, ?_⟩
+  · cases h : G t with
+    | nil => exact absurd h (hne t htn)
+    | cons a r => rfl
+  · rintro ⟨s, k⟩ hm
+    rw [List.mk_mem_zipIdx_iff_getElem?] at hm
+    obtain ⟨h1, h2⟩ := hnum t htn k s hm
+    simp [h1, h2]
+  · intro s hs
+    simp only [List.mem_flatMap, List.mem_range] at hs
+    obtain ⟨i, hi, hsi⟩ := hs
+    have := hG i s hsi
+    omega
+
+/-- the tile-part headers `writeTiles` (and the global rate-distortion path) emit: one part `TPsot = 0, TNsot = 1` per tile -/
+theorem classic_parts_consistent (n : Nat) (body : Nat → List Nat) :
+    partsConsistent n ((List.range n).flatMap fun i => [sotOf (classicTilePart i [] (body i))]) = true := by
+  apply partsConsistent_blocks
+  · intro i s hs
+    simp only [List.mem_singleton] at hs
+    subst hs
+    simp [sotOf, classicTilePart]
+  · intro i _; simp
+  · intro i _ k s hk
+    cases k with
+    | zero =>
+      simp only [List.getElem?_cons_zero, Option.some.injEq] at hk
+      subst hk
+      exact ⟨by simp [sotOf, classicTilePart, byteOf], by simp [sotOf, classicTilePart, byteOf]⟩
+    | succ j => simp at hk
+
+/-- the tile-part headers `writeHTJ2KTileParts` emits: `NumLevels + 1` parts per tile, `TPsot = k`, `TNsot = NumLevels + 1` -/
+theorem ht_parts_consistent (n L : Nat) (hL : L + 1 ≤ 255) (bodies : Nat → List (List Nat))
+    (hb : ∀ i, (bodies i).length = L + 1) :
+    partsConsistent n ((List.range n).flatMap fun i => (htTileParts i (L : Int) [] (bodies i)).map sotOf) = true := by
+  apply partsConsistent_blocks
+  · intro i s hs
+    simp only [htTileParts, List.mem_map, List.mem_mapIdx] at hs
+    obtain ⟨t, ⟨k, hk, rfl⟩, rfl⟩ := hs
+    simp [sotOf]
+  · intro i _ h
+    have := congrArg List.length h
+    simp [htTileParts, hb] at this
+  · intro i _ k s hk
+    simp only [htTileParts, List.getElem?_map, List.getElem?_mapIdx] at hk
+    have hlen : k < (bodies i).length := by
+      cases hh : (bodies i)[k]? with
+      | none => simp [hh] at hk
+      | some b => exact (List.getElem?_eq_some_iff.1 hh).1
+    cases hh : (bodies i)[k]? with
+    | none => simp [hh] at hk
+    | some b =>
+      simp only [hh, Option.map_some, Option.some.injEq] at hk
+      subst hk
+      rw [hb] at hlen
+      simp only [sotOf, htTileParts, List.length_map, List.length_mapIdx, hb]
+      refine ⟨?_, ?_⟩
+      · rw [byteOf_natCast]; omega
+      · have : ((L : Int) + 1) = ((L + 1 : Nat) : Int) := by omega
+        rw [this, byteOf_natCast]; omega
+
+end
+
 end JpegC
